@@ -580,3 +580,56 @@ func (m *Machine) ioEOF() Value {
 	ioPkg := m.prog.ImportedPackage("io")
 	return *m.globalAddr(ioPkg.Var("EOF"))
 }
+
+func init() {
+	reg("(*os.File).WriteTo", func(m *Machine, fr *frame, a []Value) Value {
+		h := m.handleOf(a[0])
+		if h == nil || h.closed {
+			return Tuple{int64(0), m.mkError("file already closed")}
+		}
+		rest := Slice(append([]Value{}, h.f.data[min(h.pos, len(h.f.data)):]...))
+		h.pos = len(h.f.data)
+		if len(rest) == 0 {
+			return Tuple{int64(0), Iface{}}
+		}
+		r, ok := m.callMethod(fr, a[1].(Iface), "Write", rest)
+		if !ok {
+			panic(pathEnd{kind: "unsupported", msg: "File.WriteTo: writer without Write"})
+		}
+		t := r.(Tuple)
+		return Tuple{t[0], t[1]}
+	})
+	reg("(*os.File).ReadFrom", func(m *Machine, fr *frame, a []Value) Value {
+		h := m.handleOf(a[0])
+		src := a[1].(Iface)
+		total := int64(0)
+		for i := 0; i < 1<<16; i++ {
+			buf := make(Slice, 512)
+			for j := range buf {
+				buf[j] = int64(0)
+			}
+			r, ok := m.callMethod(fr, src, "Read", buf)
+			if !ok {
+				panic(pathEnd{kind: "unsupported", msg: "File.ReadFrom: reader without Read"})
+			}
+			t := r.(Tuple)
+			n := int(m.concInt(fr, t[0], "ReadFrom n"))
+			if n > 0 {
+				if _, werr := m.vfsWrite(h, buf[:n]); werr.(Iface).T != nil {
+					return Tuple{total, werr}
+				}
+				total += int64(n)
+			}
+			if e := t[1].(Iface); e.T != nil {
+				if m.concBool(fr, m.eqVal(e, m.ioEOF()), "ReadFrom EOF") {
+					return Tuple{total, Iface{}}
+				}
+				return Tuple{total, e}
+			}
+			if n == 0 {
+				return Tuple{total, Iface{}}
+			}
+		}
+		panic(pathEnd{kind: "steps", msg: "File.ReadFrom: reader never ends"})
+	})
+}
